@@ -74,6 +74,7 @@ type Path struct {
 	onceDone   map[*value]bool
 	bypass     string
 	prelude    bool
+	revMaps    bool
 	dom        map[string]*byteDom
 	entangled  map[string]bool
 	domDecided int
@@ -440,6 +441,7 @@ func (p *Path) initPackage(pkg *ssa.Package) {
 			p.globals[g] = &cell
 		}
 	}
+	pkg.Build() // dependency packages are built lazily
 	if init := pkg.Func("init"); init != nil && init.Blocks != nil {
 		p.callSSA(nil, 0, init, nil, nil)
 	}
@@ -466,7 +468,8 @@ type Engine struct {
 
 	skip map[string]bool
 
-	rtypeType types.Type
+	rtypeType   types.Type
+	sampleCount map[string]int
 }
 
 func (e *Engine) noteFunc(fn *ssa.Function) {
@@ -475,6 +478,20 @@ func (e *Engine) noteFunc(fn *ssa.Function) {
 		e.funcsSeen[fn] = true
 	}
 	e.mu.Unlock()
+}
+
+// wantSample rations the end-of-path model queries used for evidence samples and
+// translator validation.
+func (e *Engine) wantSample(h string, n int) bool {
+	e.mu.Lock()
+	defer e.mu.Unlock()
+	if e.sampleCount == nil {
+		e.sampleCount = map[string]int{}
+	}
+	e.sampleCount[h]++
+	c := e.sampleCount[h]
+	// the first n paths, then every 97th path up to 4n attempts
+	return c <= n || (c%97 == 0 && c/97 <= 3*n)
 }
 
 func (e *Engine) noteStub(name string) {
@@ -581,6 +598,9 @@ var initDenyPrefixes = []string{
 	"google.golang.org/protobuf", "github.com/openconfig/gnmi/proto", "github.com/golang/protobuf",
 	"github.com/openconfig/ygot/proto", "google.golang.org/grpc", "google.golang.org/genproto",
 	"github.com/golang/glog", "github.com/openconfig/gribi",
+	// generated packages: their init() only unzips the embedded schema (gzip + JSON),
+	// which is outside what the engine executes; the enum tables are plain variables.
+	"github.com/openconfig/ygot/zz_verif_gen/", "github.com/openconfig/ygot/integration_tests/schemaops/",
 }
 
 func (e *Engine) funcsEncoded() []string {
